@@ -17,6 +17,39 @@ class SimSourceError(Exception):
     """Injected failure of a row source."""
 
 
+class SimSourceTypeError(SimSourceError, TypeError):
+    pass
+
+
+class SimSourceValueError(SimSourceError, ValueError):
+    pass
+
+
+class SimSourceKeyError(SimSourceError, KeyError):
+    pass
+
+
+class SimSourceIndexError(SimSourceError, IndexError):
+    pass
+
+
+class SimSourceAttributeError(SimSourceError, AttributeError):
+    pass
+
+
+class SimSourceOSError(SimSourceError, OSError):
+    pass
+
+
+# a failing source may raise any exception class; code under test that
+# catches e.g. TypeError for its own purposes must not swallow these
+SOURCE_ERRORS = {'plain': SimSourceError, 'type': SimSourceTypeError,
+                 'value': SimSourceValueError, 'key': SimSourceKeyError,
+                 'index': SimSourceIndexError,
+                 'attr': SimSourceAttributeError, 'os': SimSourceOSError}
+SOURCE_ERROR_KINDS = sorted(SOURCE_ERRORS)
+
+
 class SimDiskFull(OSError):
     """Injected ENOSPC."""
 
@@ -96,9 +129,10 @@ class SimTable(object):
             return sum(v for (t, w), v in self.meter.items() if w == what)
         return self.meter.get((task, what), 0)
 
-    def arm(self, index, passes=None):
+    def arm(self, index, passes=None, kind='plain'):
         self.fail_at = index
         self.fail_passes = passes
+        self.fail_cls = SOURCE_ERRORS.get(kind, SimSourceError)
 
     def disarm(self):
         self.fail_at = None
@@ -110,8 +144,11 @@ class SimTable(object):
                 if self.fail_passes <= 0:
                     self.fail_at = None
             CTX.fire('source-raise')
-            raise SimSourceError('injected failure of source %s at row %d'
-                                 % (self.name, i))
+            cls = getattr(self, 'fail_cls', SimSourceError)
+            if cls is not SimSourceError:
+                CTX.fire('source-raise:' + cls.__name__)
+            raise cls('injected failure of source %s at row %d'
+                      % (self.name, i))
 
     def _gen(self):
         rows = self.rows
